@@ -12,6 +12,7 @@ import UtilModel.Routine.ProofsObs7
 import UtilModel.Routine.ProofsObs8
 import UtilModel.Routine.ProofsObs9
 import UtilModel.Routine.ProofsObs10
+import UtilModel.Routine.ProofsObs11
 import UtilModel.Routine.ProofsAsm
 import UtilModel.Routine.ProofsRT
 import UtilModel.Routine.Monitors
@@ -581,6 +582,19 @@ theorem C14cb_obs (es : List Ev) (s : St) (hr : model.run model.init es = some s
     monC14cb.accepts (es.filterMap model.obs) = true := by
   obtain ⟨ms, h, _⟩ := cb_run model.init s {} es cblink_init hr
   have : monC14cb.run monC14cb.init (es.filterMap model.obs) = some ms := h
+  simp [ObsMonitor.accepts, this]
+
+/-- **C14, run causes, observable form** (`C14rc_obs`): the run-cause clause monitor accepts the trace of every run
+of the model: once the container's current instance — one that entered while no mutating call was in flight, was
+seen with a live context and returned before any mutating call was invoked — has reported a success, no instance
+enters before RestartRoutine or a call that sets a new routine / state is invoked; once it has reported an error
+without arming a retry, none enters before such a call or SetContext(restart = true) is invoked. (In the model the
+obligation means `Dead`: the container's record has exited with that result, holds no retry timer, every instance
+has exited; SetContext then stops the record and starts nothing, `setContextCS_dead`.) -/
+theorem C14rc_obs (es : List Ev) (s : St) (hr : model.run model.init es = some s) :
+    monC14rc.accepts (es.filterMap model.obs) = true := by
+  obtain ⟨ms, h, _⟩ := rc_run model.init s {} es rclink_init good_init cur_init allQ_init hr
+  have : monC14rc.run monC14rc.init (es.filterMap model.obs) = some ms := h
   simp [ObsMonitor.accepts, this]
 
 /-- state form of the same fact: the critical section of a retry timer never cancels an instance that has not
